@@ -29,6 +29,12 @@ CLAIMS["C11"] = dict(
     technique="Lean 4 proof (functional induction on the extension-chain parser, inductive BEP-29 chain spec) + regenerated constants + differential correspondence",
     ref="5 C11")
 
+CLAIMS["C14"] = dict(
+    text="Lean theorems for every link MTU (u16), both address families and every operation sequence with arbitrary (peer-controlled) sizes: 1 <= min_ss <= max_ss <= link-MTU payload ceiling; every size handed to segmentation is within the ceiling, ordinary = proven size, probe in (min_ss, max_ss]; next_probe cannot overflow u16; against a consistent path oracle the bracket min_ss <= P <= max_ss is kept and the gap at least halves per probe outcome, so after n outcomes with 2^n > initial gap min_ss = max_ss = P and probing stops (10 outcomes for the default IPv4 start). Model tied to mtu.rs by differential incl. a path-oracle family; implementation-side oracle checks ceiling, order and convergence bound.",
+    note="Trusted: Lean kernel, constants translator, harness. Component level (mtu.rs). The segmentation-side clauses (ordinary segments <= min_ss as enqueued, at most one outstanding probe and it is the newest, data intact on a blackholing path) belong to the connection model; until that layer is claimed they are covered by the C01/C14 parts marked pending in evidence.",
+    technique="Lean 4 proof (invariant by induction over op lists, halving argument) + regenerated constants + differential correspondence",
+    ref="5 C14")
+
 PENDING = {
 }
 
